@@ -10,6 +10,33 @@ ENV = ["env_alloc.c", "env_misc.c", "env_sync.c", "env_libc.c"]
 TUS = ["core/list.c"]
 
 
+TIME_WORDS = [
+    # which of set_timeout / set_expire decides (the last one before the operation)
+    "FsbE", "UsbE", "UFsbE", "FUsbE", "PFsbE", "PIsE", "UIsE", "Ps", "Zs", "PsFsbE", "PswFsbE", "ZsFsbE", "UsEwFsbE", "Fsc", "FscUsbE", "PsUsbE",
+    "FsEwsbE", "UscwFsbE", "IsEwc", "DsEwc", "IUsbE", "DPs", "FsbcwUsbE", "UsbawFsbE", "PsZsIsE",
+    # sleeps
+    "SbE", "ISbE", "FSbE", "FLbE", "DSbE", "Sba", "Sa", "St", "Sk", "SbEwSbE", "FLbEwISbE",
+    # a cancel that arrives after completion concerns no operation
+    "scwaSbE", "scwasc", "scwaFsbE", "SEwaSbE", "Zswasc", "PswaSbE", "scwaswc", "sawSbE", "Sawsc", "scawSbE", "FsEwaSbE",
+]
+TIME_VALUES = [{}, {"FV": 1, "UV": 1, "PV": 0, "SV": 1, "LV": 2}, {"FV": 50000, "UV": 3, "PV": 1, "SV": 50000, "LV": 50001}]
+
+
+def time_queries(tier):
+    qs = []
+    words = list(TIME_WORDS)
+    if tier != "quick":
+        words += ["FsEFsbE", "UsEUsbE", "FsaUsbE", "UsaFsbE", "FLESbE", "SEFLbE", "SESbE", "scwascwaSbE", "FsEwaFsbE", "PsPs", "ZsZs", "FstFs", "SEStS"]
+    for vi, vals in enumerate(TIME_VALUES if tier != "quick" else TIME_VALUES[:2]):
+        for w in words:
+            d = {"AIO_TIME": 1, "OUTER": '"%s"' % w}
+            d.update(vals)
+            qs.append(Query("aiotime-%s-v%d" % (w, vi), "c02/aio_sched.c", tus=TUS, env=ENV, defs=d,
+                            cdefs=["-DENV_NO_CV_UNTIL", "-DNNI_EXPIRE_BATCH=2"], unwind=12, timeout=300, group="c02/aio_sched.c#time",
+                            params={"mode": "timing", "word": w, "durations": vals or "FV=100 UV=200 PV=50 SV=60 LV=300"}))
+    return qs
+
+
 def queries(tier):
     qs = []
     outers = ["s", "sc", "sa", "se", "st", "sk", "sct", "sca", "rsc", "sec", "sac", "ts", "ks", "scs", "sas", "sts"]
@@ -41,6 +68,7 @@ def queries(tier):
                     qs.append(Query(name, "c02/aio_sched.c", tus=TUS, env=ENV, defs=d,
                                     cdefs=["-DENV_HAVE_YIELD", "-DENV_NO_CV_UNTIL", "-DNNI_EXPIRE_BATCH=2"], unwind=8, timeout=300, allow_pruned=True,
                                     params={"outer": o, "inner": i, "timeout": desc, "yield_point": "symbolic" if inj is None else inj}))
+    qs += time_queries(tier)
     for cls, nm in ((0, "fresh"), (1, "stopped"), (2, "zero-timeout"), (3, "aborted")):
         qs.append(Query("dialer-start-aio-%s" % nm, "c14/dialer_connect.c", tus=["core/list.c", "core/options.c"],
                         env=["env_alloc.c", "env_misc.c", "env_sync.c", "env_aio.c", "env_libc.c"], defs={"STARTAIO": cls}, unwind=30, timeout=300,
